@@ -3,7 +3,7 @@
 Cryptographic correctness is delegated to `ring`; decided here is that the code cannot
 release data without asking it (must-pass-through + result-use rules on the security MIR).
 """
-from rdv.core import (CheckBroken, Origins, Pos, call_matches, callee_res, infeasible_edges, norm_path, strip_generics, switch_edges,
+from rdv.core import (CheckBroken, Origins, Pos, call_matches, callee_res, infeasible_edges, norm_path, resolve_captures, strip_generics, switch_edges,
                       term_has, term_leaves, term_str)
 
 CONFIGS = ['security']
@@ -358,6 +358,7 @@ def run(rep, facts, tier):
     rule_16_12(rep, fx)
     rule_16_13(rep, fx)
     rule_16_14(rep, fx)
+    rule_16_15(rep, fx)
 
     # ------------------------------------------------------------ R16.8 crossed roles (shared lint, rdv/swaplint.py)
     from rdv import swaplint
@@ -1014,3 +1015,51 @@ def rule_16_14(rep, fx):
                       (b.key[len(CB):], which), b.where(bb))
     # (a method that tests before it inserts has no insert-then-refuse path and no instance; what must not disappear are the methods that fill the maps)
     rep.floor('R16.14', n_fn, 3, 'CryptographicBuiltin methods that insert into the key-material maps')
+
+
+SERIALISERS = ('write_to_vec', 'write_to_vec_with_ctx', 'write_to_buffer', 'write_to_buffer_with_ctx', 'write_to_stream', 'write_to_stream_with_ctx', 'to_bytes', 'serialize',
+               'to_vec_with_ctx', 'write_to', 'to_pl_cdr_bytes', 'serialize_to_bytes')
+
+
+def rule_16_15(rep, fx):
+    """What is authenticated is what arrived (added after seed C16g: the GMAC of a signed submessage checked over `encoded_submessage.write_to_vec()`; re-serialising normalises
+    what the parser ignores (DATA extraFlags), so a submessage altered there still verified)."""
+    rep.rule('R16.15', 'the MAC is checked over the received bytes: the data handed to validate_mac in decode_submessage, decode_rtps_message and decode_serialized_payload (closures '
+                       'included) derives from the input (its original_bytes / crypto content / the byte buffer) and from no serialisation of a parsed structure (write_to_vec and '
+                       'the like): a parser is not injective, so authenticating its re-serialised output accepts altered input')
+    n = 0
+    for name in ('decode_submessage', 'decode_rtps_message', 'decode_serialized_payload'):
+        bs = [b for b in fx.bodies if b.name == name and 'cryptographic_builtin::crypto_transform' in b.key and b.kind in ('fn', 'assoc_fn')]
+        if len(bs) != 1:
+            raise CheckBroken('R16.15: %s not found uniquely (%d)' % (name, len(bs)))
+        for b in [bs[0]] + list(fx.closures_of(bs[0])):
+            og = None
+            for bb, t in b.calls():
+                if not callee_res(t).endswith('::validate_mac') or len(t['args']) < 3:
+                    continue
+                og = og or Origins(b, summaries=False)
+                rep.analysed(b)
+                n += 1
+                data = og.of_operand(t['args'][2], bb, 'term')
+                if b.kind == 'closure':
+                    data = resolve_captures(fx, b, data)
+                ser = sorted(set(x[1].rsplit('::', 1)[-1] for x in _subterms16(data) if x[0] == 'call' and x[1].rsplit('::', 1)[-1] in SERIALISERS))
+                from_input = term_has(data, lambda x: x == ('param', 2)) or term_has(data, lambda x: x[0] == 'field' and x[1] == 'original_bytes')
+                rep.check(not ser and from_input, 'R16.15', '%s/validate_mac#%d/received-bytes' % (name, n), 'MAC input derives from the received bytes',
+                          '%s checks the MAC over %s: not the bytes that arrived%s; an alteration that the parser ignores or normalises is authenticated'
+                          % (name, term_str(data)[:120], (' (re-serialised by %s)' % ', '.join(ser)) if ser else ''), b.where(bb))
+    rep.floor('R16.15', n, 3, 'validate_mac calls in the three decode functions')
+
+
+def _subterms16(t):
+    out = [t]
+    if isinstance(t, tuple):
+        for x in t[1:]:
+            if isinstance(x, tuple):
+                if x and isinstance(x[0], str):
+                    out.extend(_subterms16(x))
+                else:
+                    for y in x:
+                        if isinstance(y, tuple):
+                            out.extend(_subterms16(y))
+    return out
